@@ -165,7 +165,6 @@ Proof.
   split.
   - exists r, l1. cbn [p_cur p_lines p_cursor set_plines]. split; [exact Hc|]. split; [apply dget_dset_same|]. split.
     + exists (l_texts l), text_new. unfold l1, line_add_obj. cbn [l_texts l_cur l_cursor]. repeat split.
-      rewrite line_length_sum. cbn [l_texts]. induction (l_texts l ++ [text_new]); cbn; [reflexivity|]. now rewrite IHl0.
     + split; [exact Hr|]. rewrite Elen. exact Hcur.
   - unfold row_text, cur_line. cbn [p_cur p_lines set_plines]. rewrite Hc, dget_dset_same, Hg. unfold line_text, l1, line_add_obj. cbn [l_texts].
     rewrite flat_map_app. cbn. now rewrite app_nil_r.
@@ -176,12 +175,22 @@ Lemma set_begin_cur_ready p t : row_ready p ->
   row_ready (upd_cur_text p (fun x => text_set_begin x t)) /\ row_text (upd_cur_text p (fun x => text_set_begin x t)) = row_text p.
 Proof. intros H. apply upd_cur_text_ready; [intros; split; reflexivity|exact H]. Qed.
 
+Lemma p_style_upd_cur_line p f : p_style (upd_cur_line p f) = p_style p.
+Proof. unfold upd_cur_line. destruct (p_cur p); [destruct (dget _ _)|]; reflexivity. Qed.
+Lemma p_style_append a w : p_style (append_text a w) = p_style a.
+Proof.
+  unfold append_text, indent_cursor.
+  set (q := upd_cur_line a _). assert (Eq : p_style q = p_style a) by apply p_style_upd_cur_line. clearbody q.
+  set (q1 := set_cursor q _). assert (E1 : p_style q1 = p_style a) by exact Eq. clearbody q1.
+  destruct (line_is_empty _); [now rewrite p_style_upd_cur_line|].
+  unfold update_line_cursor. rewrite p_style_upd_cur_line. destruct (_ <? 0); [now rewrite p_style_upd_cur_line|exact E1].
+Qed.
 (* the caption characters are written to, by style *)
 Definition target (c : ctx) : option para := if c_style c =? sPopOn then Some (c_buf c) else c_act c.
 Definition target_ready (c : ctx) : Prop := match target c with Some p => row_ready p | None => False end.
 Definition target_text (c : ctx) : text := match target c with Some p => row_text p | None => [] end.
 Lemma target_sync_acur c : target (sync_acur c) = target c.
-Proof. unfold sync_acur, target. destruct (c_act c); reflexivity. Qed.
+Proof. unfold sync_acur. destruct (c_act c) eqn:E; reflexivity. Qed.
 
 (* text accumulates as received: in pop-on style (buffer), in roll-up style and in paint-on style (displayed caption,
    paint-on styled), a run of characters is appended to the row being written *)
@@ -199,25 +208,35 @@ Proof.
     unfold upd_act. rewrite Ea. cbn [c_style c_act with_act]. rewrite Hs. cbn [Z.eqb sPopOn sRollUp Pos.eqb].
     destruct (append_text_ready a word Hr Hw) as [H1 H2].
     destruct (style_cur_text_ready c _ H1) as [H3 H4]. split; [exact H3|]. rewrite H4, H2. reflexivity.
-  - rewrite Ha in *. cbn [negb]. rewrite Hpa. cbn [Z.eqb sPaintOn Pos.eqb negb].
+  - rewrite Ha in Hr.
+    assert (E0 : match c_act c with None => paint_on_active_caption c (c_tc c) | Some _ => c end = c) by now rewrite Ha.
+    rewrite E0.
+    assert (E1 : match c_act c with Some a0 => p_style a0 =? sPaintOn | None => false end = true) by (rewrite Ha, Hpa; reflexivity).
+    assert (E2 : match c_act (upd_act c (fun a0 => append_text a0 word)) with Some a0 => p_style a0 =? sPaintOn | None => false end = true).
+    { unfold upd_act. rewrite Ha. cbn [c_act with_act]. rewrite p_style_append, Hpa. reflexivity. }
+    rewrite E1, E2. cbn [negb]. rewrite Ha.
+    assert (Hfin : forall f : para -> para, (row_ready (f a) /\ row_text (f a) = row_text a ++ word) ->
+              match (if c_style (upd_act (upd_act c f) (style_cur_text (upd_act c f))) =? sPopOn
+                     then Some (c_buf (upd_act (upd_act c f) (style_cur_text (upd_act c f))))
+                     else c_act (upd_act (upd_act c f) (style_cur_text (upd_act c f)))) with
+              | Some p => row_ready p | None => False end /\
+              match (if c_style (upd_act (upd_act c f) (style_cur_text (upd_act c f))) =? sPopOn
+                     then Some (c_buf (upd_act (upd_act c f) (style_cur_text (upd_act c f))))
+                     else c_act (upd_act (upd_act c f) (style_cur_text (upd_act c f)))) with
+              | Some p => row_text p | None => [] end = row_text a ++ word).
+    { intros f [H1 H2]. unfold upd_act. rewrite Ha. cbn [c_act with_act c_style]. rewrite Hs. cbn [Z.eqb sPopOn sPaintOn Pos.eqb].
+      match goal with |- context [style_cur_text ?cc ?pp] => destruct (style_cur_text_ready cc pp H1) as [H7 H8] end.
+      split; [exact H7|]. rewrite H8. exact H2. }
     destruct (starts_with_space word).
-    + unfold upd_act. cbn [c_act with_act]. rewrite Ha. cbn [c_act with_act c_style]. rewrite Hs. cbn [Z.eqb sPopOn sPaintOn Pos.eqb].
-      destruct (new_caption_text_ready a Hr) as [H1 H2]. destruct (append_text_ready _ word H1 Hw) as [H3 H4].
-      destruct (set_begin_cur_ready _ (c_tc c) H3) as [H5 H6].
-      match goal with |- context [style_cur_text ?cc ?pp] => destruct (style_cur_text_ready cc pp H5) as [H7 H8] end.
-      split; [exact H7|]. rewrite H8, H6, H4, H2. reflexivity.
+    + apply Hfin. destruct (new_caption_text_ready a Hr) as [H1 H2]. destruct (append_text_ready _ word H1 Hw) as [H3 H4].
+      destruct (set_begin_cur_ready _ (c_tc c) H3) as [H5 H6]. split; [exact H5|]. rewrite H6, H4, H2. reflexivity.
     + destruct (ends_with_space word).
-      * unfold upd_act at 3. rewrite Ha. cbn [c_act with_act]. cbn [p_style].
-        destruct (append_text_ready a word Hr Hw) as [H1 H2].
-        assert (Eps : p_style (append_text a word) = sPaintOn).
-        { unfold append_text, indent_cursor, upd_cur_line, update_line_cursor, upd_cur_line.
-          repeat match goal with |- context [match ?x with _ => _ end] => destruct x end; cbn; exact Hpa. }
-        rewrite Eps. cbn [Z.eqb sPaintOn Pos.eqb negb]. unfold upd_act. cbn [c_act with_act]. cbn [c_style]. rewrite Hs. cbn [Z.eqb sPopOn sPaintOn Pos.eqb].
+      * assert (Ecomp : upd_act (upd_act c (fun a0 => append_text a0 word))
+                               (fun a0 => upd_cur_text (new_caption_text a0) (fun x => text_set_begin x (c_tc c))) =
+                        upd_act c (fun a0 => upd_cur_text (new_caption_text (append_text a0 word)) (fun x => text_set_begin x (c_tc c)))).
+        { unfold upd_act. rewrite Ha. cbn [c_act with_act]. destruct c; reflexivity. }
+        rewrite Ecomp. apply Hfin. destruct (append_text_ready a word Hr Hw) as [H1 H2].
         destruct (new_caption_text_ready _ H1) as [H3 H4]. destruct (set_begin_cur_ready _ (c_tc c) H3) as [H5 H6].
-        match goal with |- context [style_cur_text ?cc ?pp] => destruct (style_cur_text_ready cc pp H5) as [H7 H8] end.
-        split; [exact H7|]. rewrite H8, H6, H4, H2. reflexivity.
-      * unfold upd_act. rewrite Ha. cbn [c_act with_act c_style]. rewrite Hs. cbn [Z.eqb sPopOn sPaintOn Pos.eqb].
-        destruct (append_text_ready a word Hr Hw) as [H1 H2].
-        match goal with |- context [style_cur_text ?cc ?pp] => destruct (style_cur_text_ready cc pp H1) as [H7 H8] end.
-        split; [exact H7|]. rewrite H8, H2. reflexivity.
+        split; [exact H5|]. rewrite H6, H4, H2. reflexivity.
+      * apply Hfin. apply append_text_ready; assumption.
 Qed.
